@@ -70,11 +70,22 @@ def judge(bhe, eq, ph):
     if abs(eq.R_fp - rfp) > 1e-9 * rfp:
         bad("equivalent-tube-Rfp-stale", f"stored R_fp {eq.R_fp} vs recomputed {rfp}")
     if e_r > 1e-3:  # 0.1 %, the statement's own resistance tolerance; brentq's 1e-6 absolute tolerance on k gives <= 4e-5
-        # classifier: did the pipe-conductivity root solve end on a bracket end?
+        # classifier of the known finding: the pipe-conductivity solve ended on an end of the DOCUMENTED bracket [k0/100, 10 k0]
+        # and the objective really has no sign change inside that bracket (recomputed here: R_f' + ln(ro'/ri')/(2 pi k) - target)
         n = 2
         k0 = math.log(ro_p / ri_p) / (2 * math.pi * n * pipe_t)
         on_end = min(abs(eq.pipe.k - k0 / 100.0) / (k0 / 100.0), abs(eq.pipe.k - k0 * 10.0) / (k0 * 10.0)) < 1e-9
-        mech = "Rfp-target-missed-pipe-k-on-bracket-end" if on_end else "Rfp-target-missed"
+
+        def objective(kk):
+            return r_f + math.log(ro_p / ri_p) / (2 * math.pi * kk) - target
+
+        no_root = (objective(k0 / 100.0) > 0) == (objective(k0 * 10.0) > 0)
+        if on_end and no_root:
+            mech = "Rfp-target-missed-pipe-k-on-bracket-end"
+        elif on_end:
+            mech = "Rfp-target-missed-although-a-root-lies-in-the-documented-bracket"
+        else:
+            mech = "Rfp-target-missed"
         bad(mech, f"R_fp' {rfp} vs target {target} (rel {e_r:.3g}); pipe k' {eq.pipe.k}, initial {k0}", pipe_k=eq.pipe.k)
     # effective borehole resistance
     rb = bhe.calc_effective_borehole_resistance()
@@ -84,7 +95,17 @@ def judge(bhe, eq, ph):
     info["grout_k_eq"] = eq.grout.k
     if e_b > 1e-3:
         on_end = abs(eq.grout.k - 0.01) < 1e-12 or abs(eq.grout.k - 7.0) < 1e-12
-        mech = "Rb-not-matched-grout-k-on-bracket-end" if on_end else "Rb-not-matched"
+        # classifier of the known finding: grout k on an end of the documented bracket AND the solve's objective is blind to grout k
+        # (the equivalent tube's Rb* does not move when only k_g / grout.k are changed, as the tool's objective does)
+        kg_saved = (eq.k_g, eq.grout.k)
+        probe = []
+        for kk in (0.4, 3.0):
+            eq.k_g = kk
+            eq.grout.k = kk
+            probe.append(eq.calc_effective_borehole_resistance())
+        eq.k_g, eq.grout.k = kg_saved
+        blind = abs(probe[0] - probe[1]) <= 1e-12 * abs(probe[0])
+        mech = "Rb-not-matched-grout-k-on-bracket-end" if (on_end and blind) else ("Rb-not-matched-grout-k-on-bracket-end-but-objective-responds" if on_end else "Rb-not-matched")
         bad(mech, f"Rb*' {rb_eq} vs Rb* {rb} (rel {e_b:.3g}); equivalent grout k {eq.grout.k}", grout_k=eq.grout.k)
     # the original exchanger must be left untouched by the conversion
     return v, info
